@@ -176,7 +176,8 @@ structure CallOk (c : Conv) (pol : Policy) (repl : Nat) (count : Nat) (u : UStat
   zero_end : r.ret = 0 → r.st.eof > 0
   sound : r.ret ≠ -1 → den repl u = r.units ++ den repl r.st
   accepting : Accepting pol → r.ret ≠ -1
-  bytes : ∃ k, r.st.fed = u.fed + k ∧ k ≤ (bytesLeft u).length ∧ bytesLeft r.st = (bytesLeft u).drop k
+  bytes : ∃ k, r.st.fed = u.fed + k ∧ k ≤ (bytesLeft u).length ∧ bytesLeft r.st = (bytesLeft u).drop k ∧
+    (r.st.eof > 0 → bytesLeft r.st = [])
 
 theorem refill_facts {B : Nat} (hB : 1 ≤ B) (u : UState c) (hw : Wf u) (hbuf : u.buf = []) (he : u.eof = 0) :
     Wf (refill B u) ∧ bytesLeft (refill B u) = bytesLeft u ∧ (refill B u).cs = u.cs ∧ (refill B u).fed = u.fed ∧
@@ -234,9 +235,11 @@ theorem readLoop_spec (L : Laws c) (pol : Policy) (repl : Nat) {B : Nat} (hB : 1
     have hden : den repl u = denCS repl u1.cs (u1.buf ++ u1.file) := by
       unfold den; rw [if_neg (by omega)]; rw [← hbl1, hcs1]; rfl
     have hbytes : ∀ u2 : UState c, u2.buf = u1.buf.drop q.used → u2.file = u1.file → u2.fed = u1.fed + q.used →
-        ∃ k, u2.fed = u.fed + k ∧ k ≤ (bytesLeft u).length ∧ bytesLeft u2 = (bytesLeft u).drop k := by
-      intro u2 h1 h2 h3
-      refine ⟨q.used, by omega, ?_, ?_⟩
+        (u2.eof > 0 → u2.buf = [] ∧ u2.file = []) →
+        ∃ k, u2.fed = u.fed + k ∧ k ≤ (bytesLeft u).length ∧ bytesLeft u2 = (bytesLeft u).drop k ∧
+          (u2.eof > 0 → bytesLeft u2 = []) := by
+      intro u2 h1 h2 h3 h4
+      refine ⟨q.used, by omega, ?_, ?_, fun h => by simp [bytesLeft, h4 h]⟩
       · rw [← hbl1]; have := hq.used_le; simp [bytesLeft]; omega
       · rw [← hbl1]; simp only [bytesLeft, h1, h2]; rw [List.drop_append_of_le_length hq.used_le]
     cases hst : q.status with
@@ -248,10 +251,10 @@ theorem readLoop_spec (L : Laws c) (pol : Policy) (repl : Nat) {B : Nat} (hB : 1
       · intro _
         rw [hden, hq.sound (by simp [hst])]
         simp only [den]; rw [if_neg (by simpa using he1)]; rfl
-      · exact hbytes _ rfl rfl rfl
+      · exact hbytes _ rfl rfl rfl (by intro h; dsimp only at h; omega)
     | failed =>
       simp only []
-      refine ⟨by simp, hw1, Or.inl ⟨rfl, ?_, rfl⟩, by simp, by simp, ?_, hbytes _ rfl rfl rfl⟩
+      refine ⟨by simp, hw1, Or.inl ⟨rfl, ?_, rfl⟩, by simp, by simp, ?_, hbytes _ rfl rfl rfl (by intro h; dsimp only at h; omega)⟩
       · have := hq.failed_err hst
         simp only []
         split
@@ -267,7 +270,8 @@ theorem readLoop_spec (L : Laws c) (pol : Policy) (repl : Nat) {B : Nat} (hB : 1
       · rw [if_pos hE]
         have hfl : (u1.eof != 0) = true := by simpa using hE
         have hfile := hflush hfl
-        refine ⟨by simp, ?_, Or.inr ⟨rfl, hq.room_le, rfl⟩, by simp, ?_, by simp, hbytes _ rfl rfl rfl⟩
+        refine ⟨by simp, ?_, Or.inr ⟨rfl, hq.room_le, rfl⟩, by simp, ?_, by simp,
+          hbytes _ rfl rfl rfl (fun _ => ⟨by rw [hok.1]; exact List.drop_length, hfile⟩)⟩
         · intro _; exact hfile
         · intro _
           rw [hden, hsnd]
@@ -291,6 +295,7 @@ theorem readLoop_spec (L : Laws c) (pol : Policy) (repl : Nat) {B : Nat} (hB : 1
                 simp only [h, if_false] at hf
                 rw [this]; omega)
           have hb2 := hbytes (UState.mk u1.file (u1.buf.drop q.used) q.st u1.eof q.lastErr (u1.nrep + q.reports.length) (u1.fed + q.used)) rfl rfl rfl
+            (by intro h; dsimp only at h; omega)
           generalize readLoop c pol repl B fuel _ count = r at *
           refine ⟨hrec.fuel, hrec.wf, hrec.ret_cases, hrec.zero_end, ?_, hrec.accepting, ?_⟩
           · intro hne
@@ -300,19 +305,165 @@ theorem readLoop_spec (L : Laws c) (pol : Policy) (repl : Nat) {B : Nat} (hB : 1
             have : q.units = [] := List.eq_nil_of_length_eq_zero hz
             simp only [den, bytesLeft, this, List.nil_append]
             rw [if_neg (by omega)]
-          · obtain ⟨k1, hk1, hk1le, hk1d⟩ := hb2
-            obtain ⟨k2, hk2, hk2le, hk2d⟩ := hrec.bytes
-            refine ⟨k1 + k2, ?_, ?_, ?_⟩
+          · obtain ⟨k1, hk1, hk1le, hk1d, _⟩ := hb2
+            obtain ⟨k2, hk2, hk2le, hk2d, hk2e⟩ := hrec.bytes
+            refine ⟨k1 + k2, ?_, ?_, ?_, hk2e⟩
             · dsimp only at hk2 hk1 ⊢; omega
             · rw [hk1d] at hk2le; simp only [List.length_drop] at hk2le; omega
             · dsimp only at hk2d ⊢; rw [hk2d, hk1d, List.drop_drop]
         · rw [if_neg hz]
-          refine ⟨by simp, ?_, Or.inr ⟨rfl, hq.room_le, rfl⟩, ?_, ?_, by simp, hbytes _ rfl rfl rfl⟩
+          refine ⟨by simp, ?_, Or.inr ⟨rfl, hq.room_le, rfl⟩, ?_, ?_, by simp,
+            hbytes _ rfl rfl rfl (by intro h; dsimp only at h; omega)⟩
           · intro h; exact absurd h0 h
           · intro h; dsimp only at h; omega
           · intro _
             rw [hden, hsnd]
             simp only [den, bytesLeft]
             rw [if_neg (by omega)]
+
+/-- a call that does nothing: `count <= 0` or the stream has ended -/
+theorem readChars_idle (pol : Policy) (repl B : Nat) (u : UState c) (count : Int) (h : count ≤ 0 ∨ u.eof > 0) :
+    readChars c pol repl B u count = ⟨0, 0, [], [], u⟩ := by
+  unfold readChars; rw [if_pos h]
+
+theorem readChars_spec (L : Laws c) (pol : Policy) (repl : Nat) {B : Nat} (hB : 1 ≤ B) (u : UState c) (count : Int)
+    (hc : 1 ≤ count) (hw : Wf u) (he : u.eof ≤ 0) :
+    CallOk c pol repl count.toNat u (readChars c pol repl B u count) := by
+  unfold readChars
+  rw [if_neg (by omega)]
+  apply readLoop_spec L pol repl hB count.toNat (by omega) _ u hw he
+  split <;> omega
+
+/-- the stream state after a list of calls -/
+def lastSt (u : UState c) (rs : List (CallR c)) : UState c := (rs.getLast?.map (·.st)).getD u
+
+theorem runCalls_ended (pol : Policy) (repl B : Nat) (u : UState c) (he : u.eof > 0) :
+    ∀ counts, runCalls c pol repl B u counts = counts.map (fun _ => (⟨0, 0, [], [], u⟩ : CallR c)) := by
+  intro counts
+  induction counts with
+  | nil => rfl
+  | cons n ns ih =>
+    unfold runCalls
+    simp only [readChars_idle pol repl B u n (Or.inr he)]
+    rw [if_neg (by omega), ih]; rfl
+
+/-- the invariant "no byte is read twice or skipped" -/
+def Conserved (bytes : List Nat) (u : UState c) : Prop :=
+  bytes.drop u.fed = bytesLeft u ∧ u.fed ≤ bytes.length ∧ (u.eof > 0 → u.fed = bytes.length)
+
+theorem conserved_step {bytes : List Nat} {u v : UState c} (h : Conserved bytes u) (hu : u.eof ≤ 0)
+    (hb : ∃ k, v.fed = u.fed + k ∧ k ≤ (bytesLeft u).length ∧ bytesLeft v = (bytesLeft u).drop k ∧
+      (v.eof > 0 → bytesLeft v = [])) : Conserved bytes v := by
+  obtain ⟨k, hk, hkl, hkd, hke⟩ := hb
+  obtain ⟨h1, h2, _⟩ := h
+  have hlen : (bytesLeft u).length = bytes.length - u.fed := by rw [← h1]; simp
+  have hd : bytes.drop v.fed = bytesLeft v := by rw [hkd, ← h1, List.drop_drop, hk]
+  refine ⟨hd, by omega, ?_⟩
+  intro hv
+  have := hke hv
+  rw [← hd] at this
+  have hl := congrArg List.length this
+  simp at hl
+  omega
+
+theorem conserved_init (B : Nat) (bytes : List Nat) (sniffed : Bool) : Conserved bytes (initStream c B bytes sniffed) := by
+  unfold initStream Conserved bytesLeft
+  cases sniffed <;> simp
+
+theorem wf_init (B : Nat) (bytes : List Nat) (sniffed : Bool) : Wf (initStream c B bytes sniffed) := by
+  unfold initStream Wf
+  cases sniffed <;> simp
+
+theorem den_init (repl B : Nat) (bytes : List Nat) (sniffed : Bool) :
+    den repl (initStream c B bytes sniffed) = decodeAll c repl bytes := by
+  unfold initStream den denCS bytesLeft decodeAll
+  cases sniffed <;> simp
+
+/-- every state reached by any sequence of calls, under any callback policy, satisfies the invariants -/
+theorem runCalls_inv (L : Laws c) (pol : Policy) (repl : Nat) {B : Nat} (hB : 1 ≤ B) (bytes : List Nat) :
+    ∀ (counts : List Int) (u : UState c), Wf u → Conserved bytes u →
+      ∀ r ∈ runCalls c pol repl B u counts, r.ret ≠ -2 ∧ Wf r.st ∧ Conserved bytes r.st := by
+  intro counts
+  induction counts with
+  | nil => intro u _ _ r hr; simp [runCalls] at hr
+  | cons n ns ih =>
+    intro u hw hcn r hr
+    unfold runCalls at hr
+    by_cases hidle : n ≤ 0 ∨ u.eof > 0
+    · rw [readChars_idle pol repl B u n hidle] at hr
+      simp only [List.mem_cons] at hr
+      rcases hr with rfl | hr
+      · exact ⟨by simp, hw, hcn⟩
+      · rw [if_neg (by omega)] at hr
+        exact ih u hw hcn r hr
+    · have hn : 1 ≤ n := by omega
+      have he : u.eof ≤ 0 := by omega
+      have hok := readChars_spec L pol repl hB u n hn hw he
+      generalize readChars c pol repl B u n = r0 at *
+      have hc0 := conserved_step hcn he hok.bytes
+      simp only [List.mem_cons] at hr
+      rcases hr with rfl | hr
+      · exact ⟨hok.fuel, hok.wf, hc0⟩
+      · split at hr
+        · simp at hr
+        · exact ih r0.st hok.wf hc0 r hr
+
+/-- ACCEPT-ALL: the units of successive calls are the one-shot decoding, the end is reported after the last unit and
+    stays reported -/
+theorem runCalls_accepting (L : Laws c) (pol : Policy) (hacc : Accepting pol) (repl : Nat) {B : Nat} (hB : 1 ≤ B) :
+    ∀ (counts : List Int) (u : UState c), Wf u → (∀ n ∈ counts, 1 ≤ n) → (den repl u).length < counts.length →
+      ∃ pre post, runCalls c pol repl B u counts = pre ++ post ∧ post ≠ [] ∧
+        (∀ r ∈ pre, 0 < r.ret ∧ r.ret = r.units.length ∧ r.err = 0) ∧
+        (∀ r ∈ post, r.ret = 0 ∧ r.units = [] ∧ r.err = 0 ∧ r.st.eof > 0) ∧
+        pre.flatMap (·.units) = den repl u ∧ pre.length + post.length = counts.length := by
+  intro counts
+  induction counts with
+  | nil => intro u _ _ h; simp at h
+  | cons n ns ih =>
+    intro u hw hcs hlen
+    have hn : 1 ≤ n := hcs n (by simp)
+    by_cases he : u.eof > 0
+    · refine ⟨[], runCalls c pol repl B u (n :: ns), rfl, ?_, by simp, ?_, ?_, by simp [runCalls_ended pol repl B u he]⟩
+      · rw [runCalls_ended pol repl B u he]; simp
+      · rw [runCalls_ended pol repl B u he]
+        intro r hr
+        simp only [List.mem_map] at hr
+        obtain ⟨_, _, rfl⟩ := hr
+        exact ⟨rfl, rfl, rfl, he⟩
+      · simp [den, he]
+    · have he' : u.eof ≤ 0 := by omega
+      have hok := readChars_spec L pol repl hB u n hn hw he'
+      unfold runCalls
+      generalize readChars c pol repl B u n = r0 at *
+      have hnf := hok.accepting hacc
+      have hsnd := hok.sound hnf
+      rcases hok.ret_cases with ⟨h1, _⟩ | ⟨hret, hle, herr⟩
+      · exact absurd h1 hnf
+      · simp only []
+        rw [if_neg (by omega)]
+        by_cases hz : r0.ret = 0
+        · have hend := hok.zero_end hz
+          have hu : r0.units = [] := by apply List.eq_nil_of_length_eq_zero; omega
+          refine ⟨[], r0 :: runCalls c pol repl B r0.st ns, rfl, by simp, by simp, ?_, ?_, ?_⟩
+          · rw [runCalls_ended pol repl B r0.st hend]
+            intro r hr
+            simp only [List.mem_cons, List.mem_map] at hr
+            rcases hr with rfl | ⟨_, _, rfl⟩
+            · exact ⟨hz, hu, herr, hend⟩
+            · exact ⟨rfl, rfl, rfl, hend⟩
+          · rw [hsnd, hu]; simp [den, hend]
+          · rw [runCalls_ended pol repl B r0.st hend]; simp
+        · have hpos : 0 < r0.ret := by omega
+          have hlen' : (den repl r0.st).length < ns.length := by
+            rw [hsnd] at hlen; simp at hlen; omega
+          obtain ⟨pre, post, hrun, hpost, hpre, hpo, hflat, hl⟩ :=
+            ih r0.st hok.wf (fun m hm => hcs m (by simp [hm])) hlen'
+          refine ⟨r0 :: pre, post, by rw [hrun]; rfl, hpost, ?_, hpo, ?_, by simp; omega⟩
+          · intro r hr
+            simp only [List.mem_cons] at hr
+            rcases hr with rfl | hr
+            · exact ⟨hpos, hret, herr⟩
+            · exact hpre r hr
+          · simp [hflat, hsnd]
 
 end CifModel.Model.Ustream
